@@ -9,20 +9,22 @@
              until /repo commits 6531d56 and 6c8d927 repaired them; they are inside in_subset now: a predicate may have
              type number (position test) and the operands of and / or any type but a bare attribute value, which the
              parser never puts there]
-            (f)  <, <=, >, >= on anything but numbers                             -> ty_of
             (i)  the text() function (and concat, which the proofs do not cover yet) -> ty_of
-            (k)  = / != between values of different kinds (number with string or attribute, boolean with anything else)
+            (k)  a comparison between an attribute and a boolean (XPath converts the node-set with boolean(); delb takes
+                 bool() of the attribute VALUE, and False for a missing attribute)
+            (n)  a string function (contains, starts-with, concat) applied to a number or boolean (no string conversion:
+                 TypeError in delb)
             (l)  an axis name that is not one of the eleven generators (AxOther), an unbound or empty prefix   -> deviate = None
-   dynamic  (c)  not(@a) / boolean(@a) on a candidate whose attribute a is ""     -> hazard
-            (d)  @a != 's' (s not empty) on a candidate without a                 -> eq_hazard
-            (e)  @a = '' on a candidate without a;  @a = @b, @a != @b with one of them missing      -> eq_hazard
+   dynamic  (m)  a string literal or attribute value containing whitespace that is not XML whitespace or a decimal digit
+                 that is not an ASCII digit (ast._to_number reads it as a number, XPath 1.0 as NaN)
+            [(c), (d), (e), (f) and most of (k) were excluded until /repo commits 6d4104b and 0f8d6d4]
             [(g) an attribute value on a candidate that is not a tag node, and (h) the document node, were excluded until
              /repo commits c8b3442 and c9f24a8; they are inside in_subset now.  What remains of (g) is (d)/(e): such a
              candidate has no attributes, so @a != 's' and @a = '' are the missing-attribute cases]
             (j)  a prefixed attribute whose namespace is the candidate's in-scope default namespace *)
 From Delb.Base Require Import PyStr.
 From Delb.Tree Require Import ATree ITree.
-From Delb.XPath Require Import Ast Nav Ref.
+From Delb.XPath Require Import Ast Nav Num Eval Ref.
 
 Inductive ty := TNum | TStr | TBool | TAttr.
 Definition ty_eqb (a b : ty) : bool :=
@@ -40,10 +42,8 @@ Fixpoint ty_of (e : expr) : option ty :=
       | Some a, Some b =>
           match o with
           | OpAnd | OpOr => if negb (ty_eqb a TAttr) && negb (ty_eqb b TAttr) then Some TBool else None
-          | OpEq | OpNe =>
-              if (ty_eqb a TNum && ty_eqb b TNum) || (ty_eqb a TBool && ty_eqb b TBool) || (stringy a && stringy b)
-              then Some TBool else None
-          | _ => if ty_eqb a TNum && ty_eqb b TNum then Some TBool else None
+          (* comparisons: every combination but attribute against boolean (class (k), what is left of it) *)
+          | _ => if (ty_eqb a TAttr && ty_eqb b TBool) || (ty_eqb a TBool && ty_eqb b TAttr) then None else Some TBool
           end
       | _, _ => None
       end
@@ -67,7 +67,7 @@ Fixpoint bound (m : nsmap) (e : expr) : bool :=
   | Function _ args => (fix go (l : list expr) : bool := match l with [] => true | x :: r => bound m x && go r end) args
   end.
 Definition pred_ok (m : nsmap) (e : expr) : bool :=
-  match ty_of e with Some TBool | Some TNum => bound m e | _ => false end.
+  match ty_of e with Some TBool | Some TNum | Some TStr => bound m e | _ => false end.
 
 (* ---- dynamic classes, decided on one candidate *)
 Definition tag_attrs (c : nd) : list attr := payload_attrs (ipayload (snd c)).
@@ -87,26 +87,26 @@ Definition attr_missing (m : nsmap) (p : option str) (l : str) (c : nd) : bool :
   match attr_of m p l c with Some _ => false | None => true end.
 Definition attr_empty (m : nsmap) (p : option str) (l : str) (c : nd) : bool :=
   match attr_of m p l c with Some v => null v | None => false end.
-(* (d), (e) *)
-Definition eq_hazard (m : nsmap) (o : binop) (l r : expr) (c : nd) : bool :=
-  match l, r with
-  | AttributeValue p a, AttributeValue q b => attr_missing m p a c || attr_missing m q b c
-  | AttributeValue p a, AnyValue (VStr s) | AnyValue (VStr s), AttributeValue p a =>
-      attr_missing m p a c && (match o with OpEq => null s | _ => negb (null s) end)
-  | AttributeValue p a, _ | _, AttributeValue p a => attr_missing m p a c
-  | _, _ => false
-  end.
+(* (m): a string that may be converted to a number and that _to_number reads differently from XPath 1.0: it contains
+   whitespace that is not XML whitespace, or a decimal digit that is not an ASCII digit *)
+Definition opt_N_eqb (a b : option N) : bool :=
+  match a, b with Some x, Some y => N.eqb x y | None, None => true | _, _ => false end.
+Definition num_clean (s : str) : bool :=
+  forallb (fun c => Bool.eqb (is_ws c) (xml_ws c) && opt_N_eqb (py_digit c) (ascii_digit c)) s.
 Fixpoint hazard (m : nsmap) (e : expr) (c : nd) : bool :=
   match e with
+  | AnyValue (VStr s) => negb (num_clean s)                                     (* (m) *)
   | AnyValue _ => false
-  | AttributeValue p _ => attr_j m p c                                         (* (j) *)
+  | AttributeValue p l =>
+      attr_j m p c || match attr_of m p l c with Some v => negb (num_clean v) | None => false end     (* (j), (m) *)
   | HasAttribute p _ => attr_j m p c
-  | BooleanOperator o l r =>
-      hazard m l c || hazard m r c || match o with OpEq | OpNe => eq_hazard m o l r c | _ => false end
+  | BooleanOperator o l r => hazard m l c || hazard m r c
   | Function name args =>
       (fix go (l : list expr) : bool := match l with [] => false | x :: r => hazard m x c || go r end) args
+      (* not(@a) / boolean(@a) reach the evaluator as HasAttribute since fix 0f8d6d4; an AttributeValue argument (which
+         the parser no longer produces) would still be judged by its value *)
       || ((str_is name FN_not || str_is name FN_boolean)
-          && match args with [AttributeValue p a] => attr_empty m p a c | _ => false end)      (* (c) *)
+          && match args with [AttributeValue p a] => attr_empty m p a c | _ => false end)
   end.
 
 (* ---- one step on one context node *)
